@@ -206,7 +206,8 @@ func oracle(c Case) *ev.Verdict {
 		return nil
 	}
 	tp := p.Text(nil)
-	o := sut.Observe(tp)
+	built := sut.Build(tp)
+	o := sut.ObserveBuilt(built)
 	if len(o.Escapes) > 0 {
 		e := o.Escapes[0]
 		return ev.V("panic:"+e.Op+":"+e.Frame, "%s panicked: %s\n%s", e.Op, e.Value, tp)
@@ -235,6 +236,20 @@ func oracle(c Case) *ev.Verdict {
 	for name, comp := range ctx.Components {
 		if err := oas.WellFormed(comp, "#", ctx); err != nil {
 			return oasVerdict("ill-formed", err, "component "+name+": "+comp.Canon()+"\n"+tp.String())
+		}
+	}
+	// (2') the same schema objects converted once more: the conversion must not wear the schema out
+	o2 := sut.ObserveBuilt(built)
+	if len(o2.Escapes) > 0 {
+		e := o2.Escapes[0]
+		return ev.V("second-conversion:panic:"+e.Op+":"+e.Frame, "%s panicked when the same schema objects were converted a second time: %s\n%s", e.Op, e.Value, tp)
+	}
+	if o2.OpenAPIErr != "" || o2.OpenAPI != o.OpenAPI {
+		return ev.V("second-conversion:differs", "second conversion of the same schema object gives %s %s, the first gave %s\n%s", o2.OpenAPI, o2.OpenAPIErr, o.OpenAPI, tp)
+	}
+	for name, text := range o.TypeOpenAPI {
+		if o2.TypeOpenAPI[name] != text {
+			return ev.V("second-conversion:differs", "second conversion of type %s gives %s, the first gave %s\n%s", name, o2.TypeOpenAPI[name], text, tp)
 		}
 	}
 	// (4) the example is an instance
